@@ -80,6 +80,13 @@ def _materialise_files(d, specs):
             t2 = transforms.break_text(text, spec["break"], spec.get("k", 0))
             if t2 is not None:
                 text = t2
+        if spec.get("exotic"):
+            # characters that some line-splitting primitives treat as line ends, placed INSIDE comments
+            ch = {"ff": "\x0c", "vt": "\x0b", "fs": "\x1c", "nel": "\x85", "ls": "\u2028"}[spec["exotic"]]
+            L = text.split("\n")
+            for j in range(2, len(L), max(3, len(L) // 4)):
+                L.insert(j, "-- page" + ch + "break end process;")
+            text = "\n".join(L)
         nm = "f%d.vhd" % i
         with open(os.path.join(d, nm), "w") as fh:
             fh.write(text + "\n")
@@ -183,7 +190,11 @@ def run_cli_case(case):
         crashing = set()
         for n in names:
             _restore(d, names, orig)
-            r = _run(d, [n], 1, fix)
+            try:
+                r = _run(d, [n], 1, fix)
+            except Exception:  # timeout: a hang is C19's finding
+                crashing.add(n)
+                continue
             if "Traceback" in r["stderr"]:
                 crashing.add(n)  # an unhandled exception is C19's finding; the file leaves this experiment
                 continue
@@ -272,8 +283,10 @@ def _cases(tier, seed):
         for _ in range(k):
             spec = {"file": rng.choice(small if rng.random() < 0.85 or not pragma else pragma)}
             if rng.random() < 0.15:
-                spec["break"] = rng.choice(["truncate", "paren", "delete"])
+                spec["break"] = rng.choice(["paren", "delete", "swap"])  # truncated files can hang the parser (C19 finding)
                 spec["k"] = rng.randrange(3)
+            elif rng.random() < 0.3:
+                spec["exotic"] = rng.choice(["ff", "vt", "fs", "nel", "ls"])
             fs.append(spec)
         return fs
 
@@ -284,7 +297,9 @@ def _cases(tier, seed):
             perm = list(range(k))
             rng.shuffle(perm)
             batches.append([jobs, perm])
-        cases.append({"mode": "cli", "files": fileset(k), "fix": rng.random() < 0.5, "batches": batches, "stdin": rng.randrange(k)})
+        fs = fileset(k)
+        ex = [i for i, sp in enumerate(fs) if sp.get("exotic")]
+        cases.append({"mode": "cli", "files": fs, "fix": rng.random() < 0.5, "batches": batches, "stdin": rng.choice(ex) if ex and rng.random() < 0.7 else rng.randrange(k)})
     for _ in range(nstate):
         cases.append({"mode": "state", "files": fileset(rng.choice([6, 8, 10])), "fix": rng.random() < 0.6, "style": rng.choice(["jcl", "jcl", "indent_only", None])})
     return cases
@@ -300,6 +315,9 @@ def main(tier):
     nontriv = set()
     for c, r in zip(cases, results):
         st = r.get("status", "ok")
+        if st == "hang":
+            stats["hangs(C19)"] = stats.get("hangs(C19)", 0) + 1  # a parser loop on a broken file is C19's finding
+            continue
         if st != "ok":
             V.note_inconclusive("%s %s" % (st, (str(r.get("detail")) + str(r.get("trace", ""))[-300:])[:400]))
             continue
